@@ -175,6 +175,39 @@ pub fn emit_twice(_args: &[String]) -> Result<Value> {
     for i in 0..12 { t.push_str(&format!("(export \"f{i}\" (func $f{i}))")); }
     t.push(')');
     inputs.push(("many-names".into(), wat::parse_str(&t)?));
+    // the gc and name corpora as well (every entity kind, dead entities, name maps)
+    for (name, text) in GC_CORPUS {
+        if let Ok(w) = wat::parse_str(text) { inputs.push((format!("gc:{name}"), w)); }
+    }
+    for (name, text) in crate::names::CORPUS {
+        if let Ok(w) = wat::parse_str(text) { inputs.push((format!("names:{name}"), w)); }
+    }
+    // k imported functions in front of n local functions of equal size (emission order among ties must not depend on numeric ids)
+    for k in [0usize, 1, 2, 3, 5, 8, 13, 16, 17, 31, 33] {
+        for n in [2usize, 6, 17, 40] {
+            let mut t = String::from("(module ");
+            for i in 0..k { t.push_str(&format!("(import \"env\" \"i{i}\" (func (param i32)))")); }
+            for i in 0..n { t.push_str(&format!("(func (export \"f{i}\") (result i32) (i32.const {i}))")); }
+            // ... and a few ties among bigger ones
+            for i in 0..(n / 2) { t.push_str(&format!("(func (export \"g{i}\") (result i32) (i32.add (i32.const {i}) (i32.const 1)))")); }
+            t.push(')');
+            inputs.push((format!("ties-{k}-imports-{n}-functions"), wat::parse_str(&t)?));
+        }
+    }
+    // element segments of every kind naming functions against their emitted order, with repeats
+    for (name, text) in [
+        ("declared-small-before-big", r#"(module (func $small) (func $big (drop (i32.const 1)) (drop (i32.const 2))) (elem declare func $small $big)
+            (func (export "r") (result funcref) (ref.func $small)) (func (export "s") (result funcref) (ref.func $big)))"#),
+        ("declared-with-repeats", r#"(module (func $small) (func $big (drop (i32.const 1)) (drop (i32.const 2))) (elem declare func $big $small $big $small)
+            (func (export "r") (result funcref) (ref.func $small)) (func (export "s") (result funcref) (ref.func $big)))"#),
+        ("active-and-passive-against-order", r#"(module (table 8 funcref) (func $a) (func $b (nop)) (func $c (nop) (nop)) (func $d (nop) (nop) (nop))
+            (elem (i32.const 0) func $a $d $b $a $c) (elem func $c $a $a $d) (elem (i32.const 5) funcref (ref.func $b) (ref.null func) (ref.func $a))
+            (func (export "u") (table.init 1 (i32.const 0) (i32.const 0) (i32.const 2))))"#),
+        ("data-against-order", r#"(module (memory 1) (data (i32.const 8) "bb") (data "p") (data (i32.const 0) "aaaa") (data "q")
+            (func (export "u") (memory.init 3 (i32.const 0) (i32.const 0) (i32.const 1)) (memory.init 1 (i32.const 0) (i32.const 0) (i32.const 1))))"#),
+    ] {
+        inputs.push((name.to_string(), wat::parse_str(text)?));
+    }
     for (name, wasm) in inputs {
         checked += 1;
         let w2 = wasm.clone();
